@@ -38,6 +38,10 @@ class _T(object):
     @staticmethod
     def Tuple(*ts): return Ty('Tuple', *ts)
     @staticmethod
+    def FnOrDict(k, v): return Ty('FnOrDict', k, v)
+    @staticmethod
+    def Func(file, qualname): return Ty('Func', file, qualname)   # parameter bound to one repository function
+    @staticmethod
     def New(cls): return Ty('New', cls)          # `self` of an __init__: a fresh record
     @staticmethod
     def Dict(k, v): return Ty('Dict', k, v)      # symbolic finite map with insertion order not observed
@@ -97,6 +101,11 @@ class PyDict(V):
 class SymDict(V):
     """finite map with symbolic keys: has : K -> Bool, get : K -> V (z3 arrays), plus key sort/elem types"""
     def __init__(self, has, get, kty, vty): self.has, self.get, self.kty, self.vty = has, get, kty, vty
+
+class Dual(V):
+    """an attribute used by some callers as a callable and by others as a dict of callables
+    (EAMPotential.electronDensityFunction): both views are carried"""
+    def __init__(self, fn, dict_): self.fn, self.dict = fn, dict_
 
 class Obj(V):
     def __init__(self, z, cls): self.z, self.cls = z, cls
